@@ -164,11 +164,24 @@ type St13 struct {
 	Neg float64           `json:"neg,omitempty"`
 }
 
+// Al: a struct and a pointer to its first field have the same address but different types -
+// cycle detection (which starts 1000 pointer levels down) must tell them apart.
+type AlIn struct {
+	A int `json:"a"`
+}
+type Al struct {
+	First AlIn  `json:"first"`
+	PF    *AlIn `json:"pf,omitempty"`
+	Next  *Al   `json:"next,omitempty"`
+}
+
+var alType = reflect.TypeOf(Al{})
+
 var staticTypes = []reflect.Type{
 	reflect.TypeOf(St1{}), reflect.TypeOf(St2{}), reflect.TypeOf(St3{}), reflect.TypeOf(St4{}), reflect.TypeOf(St5{}),
 	reflect.TypeOf(St6{}), reflect.TypeOf(St7{}), reflect.TypeOf(Node{}), reflect.TypeOf(St8{}), reflect.TypeOf(St9{}),
 	reflect.TypeOf([]St1{}), reflect.TypeOf(map[string]Node{}), reflect.TypeOf([2]St5{}),
-	reflect.TypeOf(St10{}), reflect.TypeOf(St11{}), reflect.TypeOf(St12{}), reflect.TypeOf(St13{}), reflect.TypeOf([]St13{}), reflect.TypeOf(map[string]*St10{}),
+	alType, reflect.TypeOf(St10{}), reflect.TypeOf(St11{}), reflect.TypeOf(St12{}), reflect.TypeOf(St13{}), reflect.TypeOf([]St13{}), reflect.TypeOf(map[string]*St10{}),
 }
 
 var embedTypes = []reflect.Type{reflect.TypeOf(In1{}), reflect.TypeOf(In2{}), reflect.TypeOf(In3{}), reflect.TypeOf(&In1{}), reflect.TypeOf(Lv2{}), reflect.TypeOf(Lv1{}), reflect.TypeOf(&Lv3{})}
@@ -337,6 +350,11 @@ func caseVariant(r *gen.R, s string) string {
 // GenFor returns a JSON text aimed at type t.
 func GenFor(g *gen.G, t reflect.Type, depth int) string {
 	r := g.R
+	if (t == alType || t == nodeType) && depth >= 3 && r.P(120) {
+		// a pointer chain deeper than the 1000 levels after which the encoders start looking for cycles
+		n := 1001 + r.Intn(200)
+		return strings.Repeat(`{"next":`, n) + `{"first":{"a":1},"v":2}` + strings.Repeat("}", n)
+	}
 	if r.P(60) {
 		return g.Value(1) // deliberate mismatch
 	}
@@ -460,7 +478,7 @@ func GenFor(g *gen.G, t reflect.Type, depth int) string {
 }
 
 var stringLitsLocal = []string{
-	`""`, `"a"`, `"foo"`, `"<script>"`, `"a&b"`, `"<"`, "\" \"", `"\n"`, `"\\"`, `"\""`, `"😀"`, `"\ud800"`, `"é"`, `"\b\f"`, `"12"`, `"-3.5"`, `"true"`, `"null"`, `"\"7\""`, `"x\u0000y"`,
+	`""`, `"a"`, `"foo"`, `"<script>"`, `"a&b"`, `"<"`, "\" \"", `"\n"`, `"\\"`, `"\""`, `"😀"`, `"\ud800"`, `"\udc00\udc00"`, `"\ud83d\ude00\ude00"`, `"\ud800\ud800"`, `"é"`, `"\b\f"`, `"12"`, `"-3.5"`, `"true"`, `"null"`, `"\"7\""`, `"x\u0000y"`,
 }
 
 // jsonQuote writes a JSON string literal (strconv.Quote would use Go escapes such as \x7f).
@@ -578,6 +596,15 @@ func mutateValue(v reflect.Value, r *gen.R, depth int) {
 			}
 		}
 	case reflect.Struct:
+		if v.Type() == alType && v.CanAddr() {
+			// along a (possibly >1000 levels deep) chain: pointers to the first field of enclosing structs
+			for a, n := v.Addr().Interface().(*Al), 0; a != nil && n < 3000; a, n = a.Next, n+1 {
+				if r.P(300) {
+					a.PF = &a.First
+				}
+			}
+			return
+		}
 		if v.Type() == nodeType && v.CanAddr() && r.P(60) {
 			// a pointer cycle: both codecs must report it instead of recursing for ever
 			n := v.Addr().Interface().(*Node)
